@@ -1,7 +1,7 @@
 package main
 
 // corr_buf.go — the "buf" correspondence slice: random operation sequences on a real bytes.Buffer (Write, Grow, Next,
-// Read, Reset, Bytes, and writes through slices obtained earlier from Next/Bytes) against Model/Buffer.v.  After
+// Read, io.ReadFull, Reset, Bytes, and writes through slices obtained earlier from Next/Bytes) against Model/Buffer.v.  After
 // every step both sides report the unread bytes, the capacity, and what every remembered slice reads now: that is
 // where "slide down or reallocate" and "which array does an old slice point at" become visible.  The capacity of a
 // newly allocated array is the runtime's business (size classes): the observed value is passed to the model.
@@ -10,6 +10,7 @@ import (
 	"bytes"
 	"encoding/hex"
 	"fmt"
+	"io"
 	"strings"
 )
 
@@ -93,8 +94,16 @@ func emitBufCases(w *caseWriter, r *rng, thorough bool) {
 				buf.Read(make([]byte, kk))
 				toks = append(toks, fmt.Sprintf("r%d", kk))
 			case c < 16:
-				buf.Reset()
-				toks = append(toks, "z")
+				if r.chance(1, 2) {
+					buf.Reset()
+					toks = append(toks, "z")
+				} else {
+					// io.ReadFull, as binary.Read and the fixed-text readers use it: sometimes more than is there
+					kk := r.intn(buf.Len() + 4)
+					io.ReadFull(buf, make([]byte, kk))
+					toks = append(toks, fmt.Sprintf("f%d", kk))
+					flags["readfull"] = true
+				}
 			case c < 18:
 				remembered = append(remembered, buf.Bytes())
 				toks = append(toks, "b")
@@ -125,7 +134,7 @@ func emitBufCases(w *caseWriter, r *rng, thorough bool) {
 			}
 			outs = append(outs, fmt.Sprintf("%s,%d,%s", hex.EncodeToString(buf.Bytes()), buf.Cap(), strings.Join(sl, "|")))
 		}
-		for _, f := range []string{"realloc", "slide", "poke-into-contents", "poke-outside-contents"} {
+		for _, f := range []string{"realloc", "slide", "readfull", "poke-into-contents", "poke-outside-contents"} {
 			if flags[f] {
 				class += "+" + f
 			}
